@@ -62,6 +62,19 @@ func drawC14(t *rapid.T) caseC14 {
 		j.Yield = rapid.Bool().Draw(t, "yield")
 		c.Jobs = append(c.Jobs, j)
 	}
+	// rarely taken paths run concurrently: several readers (and writers) over
+	// more than two uncompressed chunks each (> 128 KiB of incompressible data)
+	if rapid.IntRange(0, 5).Draw(t, "bigraw") == 0 {
+		c.Datas = append(c.Datas, gen.Recipe{{Kind: "random", Len: rapid.IntRange(135000, 150000).Draw(t, "rawlen"), Seed: rapid.Uint64().Draw(t, "rawseed")},
+			{Kind: "text", K: 4, Len: 3000, Seed: 9}})
+		idx := len(c.Datas) - 1
+		for _, k := range []string{"xzr", "lzma2r", rapid.SampledFrom([]string{"xzr", "lzma2r", "xzw", "lzma2w"}).Draw(t, "rawjob")} {
+			j := jobC14{Kind: k, Data: idx, ReadLen: rapid.SampledFrom([]int{100, 4096, 65536}).Draw(t, "rawreadlen"), Yield: true}
+			j.Cfg.DefProps = true
+			j.Cfg.DictCap = 65536
+			c.Jobs = append(c.Jobs, j)
+		}
+	}
 	// make sure the same (config, data) appears twice: determinism
 	if rapid.Bool().Draw(t, "twin") {
 		c.Jobs = append(c.Jobs, c.Jobs[0])
